@@ -71,6 +71,7 @@ class Module:
         self.name, self.path, self.src, self.tree = name, path, src, tree
         self.imports = {}     # local name -> (module, name) inside the package, or ('<ext>', dotted)
         self.consts = {}      # NAME -> ast expr (module-level simple assignments)
+        self.late_attrs = {}   # (class name, attribute) -> ast expr assigned at module level after the class body
         self.unindexed = set()  # names bound at module level by statements the index does not follow (if / try / for / with / augmented assignment)
         self.classes = {}
         self.funcs = {}
@@ -132,6 +133,9 @@ class Program:
                             ast.copy_location(sub, n)
                             ast.fix_missing_locations(sub)
                             m.consts[e.id] = sub
+                    elif isinstance(t, ast.Attribute) and isinstance(t.value, ast.Name):
+                        # Class.attr = expr at module level (tables filled in once all classes exist): the class attribute is rebound
+                        m.late_attrs[(t.value.id, t.attr)] = n.value
                     else:
                         for e in ast.walk(t):
                             if isinstance(e, ast.Name):
